@@ -12,6 +12,8 @@ def run(req):
         return _espirit(a)
     if fn == "wavelet.check":
         return _wavelet(a)
+    if fn == "fourier.nufft":
+        return _nufft(a)
     return dict(reproduced=False, detail="no replay handler for %s" % fn)
 
 
@@ -295,3 +297,75 @@ def _wavelet(a):
         if np.linalg.norm(z - x) > 1e-6 * nx:
             bad.append("W.H W x != x")
     return dict(reproduced=bool(bad), detail="; ".join(bad) or "perfect reconstruction, isometry, adjoint, advertised shape")
+
+
+def _nudft(x, coord, ndim):
+    shape = x.shape[-ndim:]
+    grids = np.meshgrid(*[np.arange(n) - n // 2 for n in shape], indexing="ij")
+    pts = coord.reshape(-1, ndim)
+    ph = np.zeros((pts.shape[0],) + tuple(shape))
+    for d in range(ndim):
+        ph = ph + pts[:, d].reshape((-1,) + (1,) * ndim) * grids[d][None] / shape[d]
+    E = np.exp(-2j * np.pi * ph).reshape(pts.shape[0], -1) / np.sqrt(np.prod(shape))
+    xb = x.reshape(-1, int(np.prod(shape)))
+    return (xb @ E.T).reshape(x.shape[:-ndim] + coord.shape[:-1]), E
+
+
+def _nufft(a):
+    import sigpy as sp
+    rs = np.random.RandomState(int(a.get("seed", 0)))
+    shape = list(a["shape"])
+    nd = len(shape)
+    kind = a.get("kind", "random")
+    npts = int(a.get("npts", 40))
+    s = np.array(shape, float)
+    if kind == "random":
+        c = rs.uniform(-0.5, 0.5, (npts, nd)) * s
+    elif kind == "grid":
+        c = np.floor(rs.uniform(-0.5, 0.5, (npts, nd)) * s)
+    elif kind == "half":
+        c = np.floor(rs.uniform(-0.5, 0.5, (npts, nd)) * s) + 0.5
+    elif kind == "cluster":
+        c = rs.normal(0, 0.3, (npts, nd))
+    else:
+        c = rs.uniform(-2, 2, (npts, nd)) * s
+    if a.get("pts_rank", 1) == 2:
+        c = c.reshape(npts // 4, 4, nd)
+    batch = (2,) * int(a.get("batch", 0))
+    x = rs.standard_normal(batch + tuple(shape)) + 1j * rs.standard_normal(batch + tuple(shape))
+    os_, w = float(a.get("oversamp", 1.25)), a.get("width", 4)
+    kw = {} if a.get("defaults") else dict(oversamp=os_, width=w)
+    y = sp.nufft(x, c, **kw)
+    yr, E = _nudft(x, c, nd)
+    bad = []
+    if y.shape != yr.shape:
+        return dict(reproduced=True, detail="output shape %s, expected %s" % (y.shape, yr.shape))
+    e = float(np.linalg.norm(y - yr) / np.linalg.norm(yr))
+    tol = a.get("tol")
+    if tol is None:
+        tol = 0.03 if (os_ == 1.25 and w == 4) else (0.003 if (os_ == 2.0 and w >= 4) else None)
+    if tol is not None and not e < tol:
+        bad.append("relative l2 error %.4g against the exact non-uniform DFT exceeds %.3g (oversamp=%g, width=%g)" % (e, tol, os_, w))
+    # periodicity: coordinates shifted by whole periods
+    sh = c + s * rs.randint(-2, 3, c.shape[:-1] + (nd,))
+    y2 = sp.nufft(x, sh, **kw)
+    e2 = float(np.linalg.norm(y2 - y) / np.linalg.norm(y))
+    if not e2 < 1e-6:
+        bad.append("nufft is not periodic in the coordinates: shift by N changes the result by %.3g" % e2)
+    # exact adjoint with the same scaling
+    u = rs.standard_normal(y.shape) + 1j * rs.standard_normal(y.shape)
+    xa = sp.nufft_adjoint(u, c, oshape=x.shape, **kw)
+    if xa.shape != x.shape:
+        bad.append("nufft_adjoint shape %s" % (xa.shape,))
+    else:
+        d = abs(np.vdot(y, u) - np.vdot(x, xa)) / max(abs(np.vdot(y, u)), 1e-300)
+        if not d < 1e-9:
+            bad.append("<nufft x, u> != <x, nufft_adjoint u> (relative %.3g)" % d)
+        # Gram: adjoint(nufft(x)) approximates E^H E x
+        g = sp.nufft_adjoint(y, c, oshape=x.shape, **kw)
+        xb = x.reshape(-1, int(np.prod(shape)))
+        gr = ((xb @ E.T) @ E.conj()).reshape(x.shape)
+        eg = float(np.linalg.norm(g - gr) / max(np.linalg.norm(gr), 1e-300))
+        if tol is not None and not eg < 3 * tol:
+            bad.append("nufft_adjoint(nufft(x)) differs from the exact Gram matrix by %.3g" % eg)
+    return dict(reproduced=bool(bad), detail="; ".join(bad) or "relative error %.3g" % e)
